@@ -180,14 +180,14 @@ class Lower:
         if k == 'array':
             # a C++ array object handled by reference/value outside a record: wrapped, so that T(&)[N] is a pointer
             et = self.ctype(t[1]); cnt = t[2]
-            nm = 'vp_carr_' + sanitize(et) + '_%d' % cnt
+            nm = 'vp_carr_' + sanitize(et.replace('*', 'p')) + '_%d' % cnt
             if nm not in self.aux_structs:
                 self.aux_structs[nm] = ('carr', t[1], cnt)
                 self.rec_defs.append('struct %s { %s a[%d]; };' % (nm, et, max(cnt, 1)))
             return 'struct ' + nm
         if k == 'stdarray':
             et = self.ctype(t[1]); cnt = t[2]
-            nm = 'vp_array_' + sanitize(et) + '_%d' % cnt
+            nm = 'vp_array_' + sanitize(et.replace('*', 'p')) + '_%d' % cnt
             if nm not in self.aux_structs:
                 self.aux_structs[nm] = None
                 self.rec_defs.append('struct %s { %s e[%d]; };' % (nm, et, max(cnt, 1)))
@@ -206,7 +206,7 @@ class Lower:
             return 'struct ' + nm
         if k == 'refw':
             inner = self.ctype(t[1])
-            nm = 'vp_refw_' + sanitize(inner)
+            nm = 'vp_refw_' + sanitize(inner.replace('*', 'p'))
             if nm not in self.aux_structs:
                 self.aux_structs[nm] = ('refw', t[1])
                 self.rec_defs.append('struct %s { %s * p; };' % (nm, inner))
@@ -222,7 +222,7 @@ class Lower:
             return 'struct vp_fnobj'
         if k == 'vec':
             et = self.ctype(t[1])
-            nm = 'vp_vec_' + sanitize(et.replace('struct ', ''))
+            nm = 'vp_vec_' + sanitize(et.replace('struct ', '').replace('*', 'p'))
             if nm not in self.aux_structs:
                 self.aux_structs[nm] = ('vec', t[1])
                 self.rec_defs.append('struct %s { %s a[VP_VEC_CAP]; unsigned long n; };' % (nm, et))
